@@ -213,6 +213,19 @@ class Sim(object):
             self._harness(lambda: self.tm.advance(d, state, publish=True, push=False))
         self.net.drain()
 
+    def pilot_states_bulk(self, pairs):
+        """one notification message carrying several pilots (the launcher advances pilot bulks)"""
+        ds = []
+        for pilot, state in pairs:
+            if pilot._state not in rps.FINAL and \
+                    rps._pilot_state_values[state] > rps._pilot_state_values[pilot._state]:
+                pilot._state = state
+            d = pilot.as_dict()
+            d['state'] = state
+            ds.append(d)
+        self._harness(lambda: self.tm.advance(ds, None, publish=True, push=False))
+        self.net.drain()
+
     def task_states(self, things, foreign=False):
         """one notification message, as `advance(things)` publishes it: short
         dicts for non-final states, the full dict for finals and for '$all'"""
